@@ -58,13 +58,20 @@ def record_comp(ctx, fmt, profiles):
             raise vlib.ToolError("isolated run returned %d results for %d cases" % (len(res), len(cases)))
         for r in res:
             c = cases[r["i"]]
+            big = "pat" in c       # input given by its generator (pattern repeated to n bytes)
             if "outcome" in r:
-                ev = {"kind": "comp", "fmt": fmt, "tag": c["tag"], "input": c["input"], "res": synth(r),
-                      "rt": {"kind": "none", "out": [], "alloc": False, "msg": ""}}
+                if big:
+                    ev = {"kind": "bigcomp", "fmt": fmt, "tag": c["tag"], "pat": c["pat"], "n": c["n"], "res": synth(r),
+                          "rt": {"kind": "none", "same": False, "len": 0, "msg": ""}}
+                else:
+                    ev = {"kind": "comp", "fmt": fmt, "tag": c["tag"], "input": c["input"], "res": synth(r),
+                          "rt": {"kind": "none", "out": [], "alloc": False, "msg": ""}}
             else:
-                ev = {k: r[k] for k in ("kind", "fmt", "tag", "input", "res", "rt")}
+                ev = {k: r[k] for k in (("kind", "fmt", "tag", "pat", "n", "res", "rt") if big else
+                                        ("kind", "fmt", "tag", "input", "res", "rt"))}
                 worst_alloc = max(worst_alloc, r.get("max_alloc", 0))
-            key = json.dumps([ev["input"], ev["res"]["kind"], ev["res"]["out"], ev["rt"]["kind"], ev["rt"]["out"]])
+            key = json.dumps([c.get("input"), c.get("pat"), c.get("n"), ev["res"]["kind"], ev["res"]["out"], ev["rt"]["kind"],
+                              ev["rt"].get("out"), ev["rt"].get("same")])
             if key in seen:
                 seen[key]["profiles"].append(p)
             else:
@@ -77,12 +84,16 @@ def record_comp(ctx, fmt, profiles):
     return cases, events
 
 
+def in_len(x):
+    return x["n"] if "pat" in x else len(x["input"])
+
+
 def check_comp(ctx, fmt, profiles):
     cases, events = record_comp(ctx, fmt, profiles)
     bad, rep = trace_check(ctx, events, "comp_" + fmt)
     for i in bad:
         ev = events[i]
-        ctx.violation({"dir": "impl->spec", "op": fmt + ".compress", "tag": ev["tag"], "input_len": len(ev["input"]),
+        ctx.violation({"dir": "impl->spec", "op": fmt + ".compress", "tag": ev["tag"], "input_len": in_len(ev),
                        "res": ev["res"]["kind"], "msg": ev["res"]["msg"][:120], "rt": ev["rt"]["kind"],
                        "profiles": ev["profiles"]},
                       {"event": ev})
@@ -91,7 +102,10 @@ def check_comp(ctx, fmt, profiles):
     ctx.nontrivial += rep["nref"]
     ctx.extra["events_with_back_reference"] = rep["nref"]
     ctx.extra["terminal_classes"] = rep["tally"]
-    ctx.extra["largest_input"] = max(len(c["input"]) for c in cases)
+    ctx.extra["largest_input"] = max(in_len(c) for c in cases)
+    ctx.extra["largest_listed_input"] = max(len(c["input"]) for c in cases if "input" in c)
+    ctx.extra["generator_described_inputs"] = sorted(set(c["n"] for c in cases if "pat" in c))
+    ctx.nontrivial += sum(1 for e in events if e["kind"] == "bigcomp")
     big = [e for e in events if e["tag"].startswith("per4096")]
     if big:
         e = big[0]
@@ -99,6 +113,11 @@ def check_comp(ctx, fmt, profiles):
                     "stream_head": e["res"]["out"][:16]})
     e = events[min(700, len(events) - 1)]
     ctx.sample({"tag": e["tag"], "input": e["input"], "stream": e["res"]["out"]})
+    for e in events:
+        if e["kind"] == "bigcomp" and e["n"] == 0xFFFFFF:
+            ctx.sample({"tag": e["tag"], "n": e["n"], "period": len(e["pat"]), "res": e["res"]["kind"],
+                        "stream_len": len(e["res"]["out"]), "stream_head": e["res"]["out"][:12], "rt": e["rt"]})
+            break
     return events
 
 
@@ -107,13 +126,17 @@ def replay_comp(ctx, rp):
     prof = ev.get("profiles", ["release"])[0]
     b = ctx.build(prof, BIN)
     cpath, opath = ctx.path("c.ndjson"), ctx.path("o.ndjson")
-    vlib.write_ndjson(cpath, [{"fmt": ev["fmt"], "tag": ev["tag"], "input": ev["input"]}])
-    res = ctx.isolated(b, ["comp", cpath, opath], 1, opath)
+    big = ev["kind"] == "bigcomp"
+    case = {"fmt": ev["fmt"], "tag": ev["tag"]}
+    case.update({"pat": ev["pat"], "n": ev["n"]} if big else {"input": ev["input"]})
+    vlib.write_ndjson(cpath, [case])
+    res = ctx.isolated(b, ["comp", cpath, opath], 1, opath, per_case_timeout=180.0)
     r = res[0]
     if "outcome" in r:
-        e2 = dict(ev, res=synth(r), rt={"kind": "none", "out": [], "alloc": False, "msg": ""})
+        e2 = dict(ev, res=synth(r), rt={"kind": "none", "out": [], "same": False, "alloc": False, "msg": ""})
     else:
-        e2 = {k: r[k] for k in ("kind", "fmt", "tag", "input", "res", "rt")}
+        e2 = {k: r[k] for k in (("kind", "fmt", "tag", "pat", "n", "res", "rt") if big else
+                                ("kind", "fmt", "tag", "input", "res", "rt"))}
     print("result now: res=%s %s rt=%s stream=%s" % (e2["res"]["kind"], e2["res"]["msg"], e2["rt"]["kind"], e2["res"]["out"][:64]))
     bad, _ = trace_check(ctx, [e2], "replay")
     if bad:
@@ -126,15 +149,17 @@ def run(ctx):
                 "machine action by action. impl->spec: all inputs over {a,b} up to length %d and {a,b,c} up to %d plus "
                 "seeded structured inputs (runs, periods around 18/256/4096, self-similar with window-edge copies, "
                 "incompressible, text) compressed by the real LZ10 compressor; the stream is decoded by the TLA+ decoder "
-                "machine at the real constants. Non-trivial = event whose stream made the decoder take >= 1 BackRef step "
+                "machine at the real constants; plus size-boundary inputs given by generator (run / period 3, 17, 4096 repeated to "
+                "0xFFFF..0x10001, 65810, 65811, 70000, 0x20000, 140000 and 16 MiB-2, 16 MiB-1 bytes) judged by the validating "
+                "decoder (same layouts and checks, out replaced by the known expected output). Non-trivial = event whose stream made the decoder take >= 1 BackRef step "
                 "(counted by TLC)." % (ctx.pick(7, 9), ctx.pick(11, 14), ctx.pick(7, 9)))
     profiles = ctx.pick(["release"], ["release", "checked"])
     bins = [ctx.build(p, BIN) for p in profiles]   # cargo first, TLC afterwards
     model_laws(ctx)
     check_comp(ctx, "lz10", profiles)
     ctx.exhaustive = True
-    ctx.assumptions += ["inputs explored up to %d bytes (statement: < 16 MiB); the 24-bit length field beyond that only in the spec" %
-                        ctx.extra["largest_input"],
+    ctx.assumptions += ["inputs listed byte by byte up to %d bytes; beyond that (up to 16 MiB - 1) only generator-described periodic inputs, "
+                        "whose own-decompression result is compared with the input by the harness" % ctx.extra["largest_listed_input"],
                         "scaled model: W=6, lengths 3..5 (LZ10s); byte layouts are the real ones",
                         "the independent decoder of the statement is the TLA+ decoder machine evaluated by TLC"]
 
